@@ -24,7 +24,7 @@ def gamma_value(name, c, k, mu, sigma_sq, team_size, rank, max_member_sigma=None
         return 1 / (1 + abs(mu) / c)
     if name == "team_sigma":
         return max_member_sigma / c
-    if name == "default":
+    if name in ("default", "reentrant"):
         return mp.sqrt(sigma_sq) / c
     if name == "zero":
         return M(0)
